@@ -86,7 +86,7 @@ From PFV Require Import Boundary Solver StencilThy ConservThy MaxPrincipleThy Ma
    of the assembled system up to a truncation error tau, the discrete solution x is within  max|tau| / min(kap)  of it.
    kap = alpha/dt + beta > 0;  D >= 0;  u discretely divergence-free, upwind scheme;  closures: Dirichlet, no-flux, Robin of one
    sign, periodic.  With the exactness theorems above (tau = 0 on the polynomial families, i.e. second-order truncation on smooth
-   solutions) this is the Lax argument; the Taylor remainder bound itself is NOT formalised. ---- *)
+   solutions) this is the Lax argument; the Taylor remainder bound is formalised for the Cartesian uniform axis only (end of this file). ---- *)
 Section C02b.
 Import ListNotations.
 Local Open Scope R_scope.
@@ -144,3 +144,84 @@ Theorem C02_stability_of_solutions : forall (m : Mesh ROps) (bc : BCs ROps) (D u
   forall c, In c (interior_cells ROps m) -> (Rabs (x c - e c) <= E)%R.
 Proof. exact stability_of_solutions. Qed.
 Print Assumptions C02_stability_of_solutions.
+
+(* ---- consistency for ARBITRARY smooth functions (session 3): the Taylor remainder of the second difference, with its constant, from
+   Coquelicot's Taylor-Lagrange formula; and in the form of the model's diffusion stencil on a uniform Cartesian axis with constant d.
+   Together with C02_error_bounded_by_truncation this bounds the contribution of interior rows by |d| max|f^(4)| h^2 / (12 min kap).
+   Still not formalised: the remainder on the curvilinear axes and on non-uniform spacing, and the boundary rows (whose truncation
+   error in the cell-centred ghost-cell form is O(1) for Dirichlet data, so that second-order convergence needs a finer argument
+   than stability x truncation). ---- *)
+From Coquelicot Require Import Coquelicot.
+From Coq Require Import Lra.
+From PFV Require Import TaylorThy.
+Theorem C02_taylor_second_difference : forall f : R -> R, (forall t k, (k <= 4)%nat -> ex_derive_n f k t) ->
+  forall x h M : R, (0 < h)%R ->
+  (forall t, (x - h < t < x + h)%R -> (Rabs (Derive_n f 4 t) <= M)%R) ->
+  (Rabs ((f (x + h) - 2 * f x + f (x - h)) / (h * h) - Derive_n f 2 x) <= M * (h * h) / 12)%R.
+Proof. exact second_difference_remainder. Qed.
+Print Assumptions C02_taylor_second_difference.
+Theorem C02_taylor_cartesian_axis : forall (f : R -> R) (m : Mesh ROps) (a : axis) (c : cell) (h xi d M : R) (D : fvar ROps) (x : cvar ROps),
+  (forall t k, (k <= 4)%nat -> ex_derive_n f k t) ->
+  (0 < h)%R -> mdxf ROps m a (cidx a c) = h /\ mdxf ROps m a (pred (cidx a c)) = h ->
+  D a c = d /\ D a (cdn a c) = d ->
+  x (cdn a c) = f (xi - h)%R /\ x c = f xi /\ x (cup a c) = f (xi + h)%R ->
+  mfac ROps m a c = 1%R -> mA ROps m a (cidx a c) = 1%R -> mA ROps m a (pred (cidx a c)) = 1%R -> mW ROps m a (cidx a c) = h ->
+  (forall t, (xi - h < t < xi + h)%R -> (Rabs (Derive_n f 4 t) <= M)%R) ->
+  (Rabs (apply_axis ROps (diffAW ROps m D) (diffAP ROps m D) (diffAE ROps m D) x a c - d * Derive_n f 2 xi)
+   <= Rabs d * (M * (h * h) / 12))%R.
+Proof. exact taylor_cartesian_axis. Qed.
+Print Assumptions C02_taylor_cartesian_axis.
+(* non-vacuity, and the constant is sharp: for f = x^4 (f^(4) = 24) the remainder is exactly 2 h^2 = 24 h^2 / 12 *)
+Example C02_taylor_nonvacuous : forall x h : R, (0 < h)%R ->
+  (Rabs (((x + h) ^ 4 - 2 * x ^ 4 + (x - h) ^ 4) / (h * h) - Derive_n (fun t => t ^ 4) 2 x) <= 24 * (h * h) / 12)%R.
+Proof.
+  intros x h Hh. apply (C02_taylor_second_difference (fun t => t ^ 4)%R); [|exact Hh|].
+  - intros t k _. apply ex_derive_n_pow.
+  - intros t _. rewrite Derive_n_pow_smalli by apply le_n. rewrite Nat.sub_diag. simpl.
+    replace ((1 + 1 + 1 + 1) * ((1 + 1 + 1) * ((1 + 1) * 1)) / 1 * 1)%R with 24%R by field.
+    rewrite Rabs_pos_eq by lra. lra.
+Qed.
+
+(* ---- a CONVERGENCE theorem (consistency x stability) in the simplest configuration: uniform Cartesian axis (Grid1D), constant
+   diffusivity d >= 0, no advection, kap = alpha/dt + beta >= k0 > 0; the closure of the error across the ends of the cell range is
+   `nb_homog` (periodic wrap, or boundary rows satisfied exactly by both the discrete solution and the sampled exact solution):
+   the discrete solution of  kap x - d Laplace_h x = kap f - d f''  is within  d max|f''''| h^2 / (12 k0)  of the exact solution f
+   at every cell centre -- second order, with the constant. ---- *)
+Theorem C02_convergence_cartesian_1D : forall (f : R -> R) (m : Mesh ROps) (D u : fvar ROps) (kap x : cvar ROps) (xi : cell -> R)
+  (cells : list cell) (h d M k0' : R),
+  mcls ROps m = G1 ->
+  cells <> nil ->
+  (forall c a, In c cells -> In a (active_axes ROps m) -> (1 <= cidx a c <= mN ROps m a)%nat /\ signs_ok m D c a) ->
+  (forall a c, u a c = 0%R) ->
+  (0 < h)%R -> (0 <= d)%R -> (0 < k0')%R -> (forall c, In c cells -> (k0' <= kap c)%R) ->
+  (forall c, In c cells ->
+     mdxf ROps m AX (cidx AX c) = h /\ mdxf ROps m AX (pred (cidx AX c)) = h /\ mfac ROps m AX c = 1%R /\
+     mA ROps m AX (cidx AX c) = 1%R /\ mA ROps m AX (pred (cidx AX c)) = 1%R /\ mW ROps m AX (cidx AX c) = h /\
+     D AX c = d /\ D AX (cdn AX c) = d) ->
+  (forall t k, (k <= 4)%nat -> ex_derive_n f k t) ->
+  (forall t, (Rabs (Derive_n f 4 t) <= M)%R) ->
+  (forall c, In c cells -> xi (cup AX c) = (xi c + h)%R /\ xi (cdn AX c) = (xi c - h)%R) ->
+  (forall c, In c cells -> Lrow m D u kap x c = (kap c * f (xi c) - d * Derive_n f 2 (xi c))%R) ->
+  (forall c a, In c cells -> In a (active_axes ROps m) ->
+     nb_homog cells (fun c => (x c - f (xi c))%R) c (cdn a c) /\ nb_homog cells (fun c => (x c - f (xi c))%R) c (cup a c)) ->
+  forall c, In c cells -> (Rabs (x c - f (xi c)) <= d * (M * (h * h) / 12) / k0')%R.
+Proof. exact convergence_cartesian_1D. Qed.
+Print Assumptions C02_convergence_cartesian_1D.
+(* its hypotheses are satisfiable (one-cell mesh, f = t^2 sampled at the cell and ghost centres: the scheme is exact on quadratics) *)
+Example C02_convergence_nonvacuous :
+  let cells := ((1, 0, 0)%nat :: nil) in
+  let x := fun c => exf (exxi c) in
+  mcls ROps exR = G1 /\ cells <> nil /\
+  (forall c a, In c cells -> In a (active_axes ROps exR) -> (1 <= cidx a c <= mN ROps exR a)%nat /\ signs_ok exR exD c a) /\
+  (forall a c, exu a c = 0%R) /\
+  (forall c, In c cells ->
+     mdxf ROps exR AX (cidx AX c) = 1%R /\ mdxf ROps exR AX (pred (cidx AX c)) = 1%R /\ mfac ROps exR AX c = 1%R /\
+     mA ROps exR AX (cidx AX c) = 1%R /\ mA ROps exR AX (pred (cidx AX c)) = 1%R /\ mW ROps exR AX (cidx AX c) = 1%R /\
+     exD AX c = 1%R /\ exD AX (cdn AX c) = 1%R) /\
+  (forall t k, (k <= 4)%nat -> ex_derive_n exf k t) /\
+  (forall t, (Rabs (Derive_n exf 4 t) <= 0)%R) /\
+  (forall c, In c cells -> exxi (cup AX c) = (exxi c + 1)%R /\ exxi (cdn AX c) = (exxi c - 1)%R) /\
+  (forall c, In c cells -> Lrow exR exD exu (fun _ => 1%R) x c = (1 * exf (exxi c) - 1 * Derive_n exf 2 (exxi c))%R) /\
+  (forall c a, In c cells -> In a (active_axes ROps exR) ->
+     nb_homog cells (fun c => (x c - exf (exxi c))%R) c (cdn a c) /\ nb_homog cells (fun c => (x c - exf (exxi c))%R) c (cup a c)).
+Proof. exact convergence_hyps_satisfiable. Qed.
